@@ -278,6 +278,9 @@ func (w *handleWorld) do(o hOp) {
 		if (gc == "fail") != (wc == "fail") {
 			fail("outcome", "os="+wc+":sut="+gc, "one side fails")
 		}
+		if gc == "fail" && wc == "fail" && want.n == 0 && got.n != 0 {
+			fail("data", "n-with-error", "a refused read claims to have transferred bytes; os.File returns 0 with the error")
+		}
 		if wc != "fail" {
 			if got.n != want.n || !bytes.Equal(got.data, want.data) {
 				fail("data", "bytes", fmt.Sprintf("transferred bytes differ (sut %d bytes, os %d bytes)", got.n, want.n))
@@ -323,12 +326,18 @@ func (w *handleWorld) do(o hOp) {
 		if want.err == nil && got.n != want.n {
 			fail("data", "n", "byte counts differ")
 		}
+		if want.err != nil && got.err != nil && want.n == 0 && got.n != 0 {
+			fail("data", "n-with-error", "a refused write claims to have transferred bytes; os.File returns 0 with the error")
+		}
 	case "Seek":
 		if (got.err == nil) != (want.err == nil) {
 			fail("outcome", "os="+okFail(want.err)+":sut="+okFail(got.err), "one side fails")
 		}
 		if want.err == nil && got.off != want.off && !h.isDir {
 			fail("data", "offset", "returned offsets differ")
+		}
+		if want.err != nil && got.err != nil && want.off == 0 && got.off != 0 {
+			fail("data", "offset-with-error", "a refused Seek reports an offset; os.File returns 0 with the error")
 		}
 	case "Truncate", "Sync", "Chmod":
 		if (got.err == nil) != (want.err == nil) {
